@@ -32,8 +32,13 @@ def rexp(rnd, scope, fns, d=0):
         return {'k': 'bin', 'op': rnd.choice(['+', '-', '*', '<', '==']), 'l': grp(rexp(rnd, scope, fns, d + 1)), 'r': grp(rexp(rnd, scope, fns, d + 1))}
     if r < 0.75 and fns:
         return J.call(rnd.choice(fns), *[rexp(rnd, scope, fns, d + 1) for _ in range(rnd.randint(0, 2))])
-    if r < 0.9:
+    if r < 0.88:
         return J.call('probe', J.num(rnd.randint(200, 299)), rexp(rnd, scope, fns, d + 1))
+    if r < 0.94:
+        # the shared array changes while loops walk it: a for loop fixes the LENGTH once and reads the elements live
+        return rnd.choice([J.call('arrayPush', J.var('garr'), J.num(rnd.randint(5, 9))), J.call('arrayPop', J.var('garr')),
+                           J.call('arraySet', J.var('garr'), J.num(rnd.randint(0, 2)), J.num(rnd.randint(5, 9))),
+                           J.call('arrayShift', J.var('garr'))])
     return J.call('arrayNew', *[rexp(rnd, scope, fns, d + 1) for _ in range(rnd.randint(0, 3))])
 
 
